@@ -31,13 +31,14 @@ from mc.explore import Chooser, dfs_choices
 from mc.pool import pmap
 from mc.stats import Stats
 
-MARKERS = ("a", "e", "fwd", "ins", "m", "reg", "ereg", "addarg", "rui", "eo", "victim", "pure", "c")
+MARKERS = ("a", "e", "fwd", "ins", "m", "reg", "ereg", "addarg", "rui", "rui2", "rauw", "eo", "victim", "pure", "c")
 # (needs_operand, n_results, has_region)
 SHAPE = {
     "a": (False, 1, False), "b": (False, 1, False), "c": (False, 1, False), "e": (False, 1, False),
     "fwd": (True, 1, False), "ins": (False, 1, False), "m": (False, 1, False), "reg": (False, 0, True),
     "ereg": (False, 0, True), "addarg": (False, 0, True), "rui": (True, 1, False), "eo": (False, 0, False),
     "victim": (False, 1, False), "pure": (False, 1, False),
+    "rui2": (True, 1, False), "rauw": (True, 1, False),
 }
 NESTED_BODIES = ((("a", None),), (("m", None), ("e", None)))   # bodies placed inside region-carrying markers
 
@@ -224,6 +225,24 @@ def make_patterns():
             expect("modification", op)
             rewriter.notify_op_modified(op)
 
+    class ReplaceUsesIfOnly(RewritePattern):
+        """the conditional use replacement is the ONLY mutation of this match"""
+        def match_and_rewrite(self, op, rewriter):
+            if marker(op) != "rui2" or op.results[0].first_use is None:
+                return
+            for u in users(op):
+                expect("modification", u)
+            rewriter.replace_uses_with_if(op.results[0], op.operands[0], lambda use: True)
+
+    class ReplaceAllUsesOnly(RewritePattern):
+        """replace_all_uses_with is the ONLY mutation of this match"""
+        def match_and_rewrite(self, op, rewriter):
+            if marker(op) != "rauw" or op.results[0].first_use is None:
+                return
+            for u in users(op):
+                expect("modification", u)
+            rewriter.replace_all_uses_with(op.results[0], op.operands[0])
+
     class EraseOther(RewritePattern):
         def match_and_rewrite(self, op, rewriter):
             if marker(op) != "eo":
@@ -237,7 +256,7 @@ def make_patterns():
             rewriter.notify_op_modified(op)
 
     return [Replace("a", "b"), Replace("b", "c"), EraseUnused(), Forward(), InsertThenMark(), Modify(), InlineRegion(),
-            EraseWithRegion(), AddArg(), ReplaceUsesIf(), EraseOther()]
+            EraseWithRegion(), AddArg(), ReplaceUsesIf(), ReplaceUsesIfOnly(), ReplaceAllUsesOnly(), EraseOther()]
 
 
 # ------------------------------------------------------------------ one execution
@@ -411,7 +430,7 @@ def run(ctx):
     n = 64
     default_cfgs = [c for c in CONFIGS_ALL if c[3] is False]      # 16: all walker configs x dce, pattern order forward
     if ctx.quick:
-        plans = [(2, CONFIGS_ALL, 1, 400), (3, [(False, False, True, False, True)], 1, 200)]
+        plans = [(2, CONFIGS_ALL, 1, 400), (3, [(False, False, True, False, True)], 0, 50)]
     else:
         plans = [(2, CONFIGS_ALL, 3, 5000), (3, default_cfgs, 2, 2000)]
     for max_ops, cfgs, bound, cap in plans:
